@@ -180,8 +180,21 @@ def declare(ctx, d):
     elif d['op'] == 'gear':
         g.utils.add_gear_mating(master=m, slave=s, efficiency=npv(d['eff']))
     elif d['op'] == 'worm':
+        f = d['f']
+        if d.get('f_at') is not None:
+            # friction placed on the library's own self-locking threshold
+            # cos(alpha)*tan(beta) of the worm gear (the very float it
+            # computes), or a given number of ulps beside it
+            import math
+            w = m if type(m).__name__ == 'WormGear' else s
+            f = w.pressure_angle.cos() * w.helix_angle.tan()
+            k = int(d['f_at'].get('ulps', 0))
+            for _ in range(abs(k)):
+                f = math.nextafter(f, 2.0 if k > 0 else -1.0)
+            f = float(f)
         g.utils.add_worm_gear_mating(master=m, slave=s,
-                                     friction_coefficient=npv(d['f']))
+                                     friction_coefficient=npv(f))
+        return f
     else:
         raise AssertionError(d['op'])
 
@@ -660,7 +673,9 @@ def _execute(scn, keep_objects=False, prev_ctx=None):
             ev['before'] = [relation_state(ctx, d['m']),
                             relation_state(ctx, d['s'])]
         try:
-            declare(ctx, d)
+            f_used = declare(ctx, d)
+            if d.get('f_at') is not None:
+                ev['f_used'] = f_used
         except Exception as ex:      # noqa
             ev['exc'] = _exc(ex)
         if track_rel:
